@@ -271,3 +271,36 @@ def _estimate_empty(k):
 
 
 contract("C27", "estimate_prox_parameter[cols=0]", samples=2)(_estimate_empty)
+
+
+@contract("C27", "estimate_prox_parameter/force directions of any numeric dtype and container", samples=0, replayable=False, timeout=30)
+def c_estimate_dtypes(k):
+    """the real estimate_prox_parameter with the real scipy solve (executed natively): W given as integer / float32 /
+    float64 arrays, dense or sparse (csc, coo, csr), M diagonal or full SPD - the result is r_i = alpha / (w_i^T M^-1 w_i),
+    positive, finite and of floating type, whatever the machine type of W"""
+    from vk import kit as K
+    from vk import npshim
+
+    if not k.sym:
+        raise K.Reject("decided by native execution")
+    from scipy.sparse import coo_array, csc_array, csr_array
+
+    k.covers(px.estimate_prox_parameter)
+    rng = np.random.default_rng(27)
+    with npshim.active(False):
+        for trial in range(6):
+            n = int(rng.integers(1, 6))
+            cols = int(rng.integers(1, min(n, 3) + 1))
+            while True:
+                Wi = rng.integers(-1, 2, size=(n, cols))
+                if np.linalg.matrix_rank(Wi) == cols:
+                    break
+            L = rng.normal(size=(n, n))
+            M = np.diag(rng.uniform(0.5, 2.0, n)) if trial % 2 == 0 else L @ L.T + n * np.eye(n)
+            alpha = float(rng.uniform(0.2, 2.0))
+            ref = alpha / np.diag(Wi.T @ np.linalg.solve(M, Wi.astype(float)))
+            for tag, W in (("int64 dense", Wi.astype(np.int64)), ("int32 dense", Wi.astype(np.int32)), ("float32 dense", Wi.astype(np.float32)), ("float64 dense", Wi.astype(float)),
+                           ("int64 csc", csc_array(Wi.astype(np.int64))), ("int64 coo", coo_array(Wi.astype(np.int64))), ("float64 csr", csr_array(Wi.astype(float)))):
+                r = np.asarray(px.estimate_prox_parameter(alpha, W, csc_array(M)))
+                ok = r.shape == (cols,) and np.issubdtype(r.dtype, np.floating) and bool(np.all(np.isfinite(r)) and np.all(r > 0)) and bool(np.allclose(r, ref, rtol=1e-5 if "32" in tag else 1e-10))
+                k.prove(f"trial {trial} (n = {n}, {cols} columns, {'diagonal' if trial % 2 == 0 else 'full'} M), W as {tag}: r = alpha / diag(W^T M^-1 W), positive, finite, floating", ok)
